@@ -217,7 +217,17 @@ def parser_conformance(tier):
     t0 = time.time()
     helper = os.path.join(os.path.dirname(os.path.dirname(os.path.dirname(os.path.abspath(__file__)))), "bounded", "dsl_parser.py")
     repo = os.environ.get("VERIF_REPO", "/repo")
-    p = subprocess.run([sys.executable, helper, repo, str(bound)], capture_output=True, text=True)
+    scratch = None
+    if repo != "/repo":
+        # an overlay tree (seeded changes, mutants) may be partial: the helper needs a complete package
+        from vc import replayer
+        scratch = repo = replayer.scratch_tree()
+    try:
+        p = subprocess.run([sys.executable, helper, repo, str(bound)], capture_output=True, text=True)
+    finally:
+        if scratch:
+            import shutil
+            shutil.rmtree(scratch, ignore_errors=True)
     try:
         res = json.loads(p.stdout.strip().splitlines()[-1])
     except Exception:
